@@ -34,7 +34,10 @@ def cases(draw, hazard):
         b = draw(R.adversarial)
         if l[0] == 'str':
             if draw(st.integers(0, 3)) == 0:
-                new = R.dollar_body(b, draw(st.sampled_from(R.TAGS)))
+                tag = draw(st.sampled_from(R.TAGS))
+                # other dollar tags inside the body are ordinary characters: only the region's own tag terminates it
+                b = b + draw(st.sampled_from(['', '', ' $$ ; ', ' $other$ ; $other$ ', ';$_$', '$1 ; $2']))
+                new = R.dollar_body(b, tag)
             else:
                 new = R.sq_body(b)
         elif l[0] == 'qname':
